@@ -617,6 +617,7 @@ impl<S: VhostUserBackendReqHandler> BackendReqHandler<S> {
                 self.send_ack_message(&hdr, res)?;
             }
             Ok(FrontendReq::GPU_SET_SOCKET) => {
+                self.check_request_size(&hdr, size, 0)?;
                 let res = self.set_gpu_socket(files);
                 self.send_ack_message(&hdr, res)?;
             }
@@ -681,6 +682,7 @@ impl<S: VhostUserBackendReqHandler> BackendReqHandler<S> {
                 }
             }
             Ok(FrontendReq::CHECK_DEVICE_STATE) => {
+                self.check_request_size(&hdr, size, 0)?;
                 let res = self.backend.check_device_state();
 
                 // We must return a value in the payload to indicate success or error:
@@ -693,6 +695,7 @@ impl<S: VhostUserBackendReqHandler> BackendReqHandler<S> {
             }
             Ok(FrontendReq::GET_SHMEM_CONFIG) => {
                 self.check_proto_feature(VhostUserProtocolFeatures::SHMEM)?;
+                self.check_request_size(&hdr, size, 0)?;
                 let msg = self.backend.get_shmem_config()?;
                 self.send_reply_message(&hdr, &msg)?;
             }
